@@ -57,7 +57,7 @@ package html
 //@   tier thorough
 
 // C14: safety sweep of the page-assembly functions the property names.
-//@ sweep C14: getIndexLetter, surnameStartsWith, PublishHeader.WriteHTMLTo
+//@ sweep C14: getIndexLetter, getIndexLetterForSurname, surnameStartsWith, PublishHeader.WriteHTMLTo, SurnameLink.WriteHTMLTo
 //@ sweep C14: IndividualPage.WriteHTMLTo, IndividualNameAndSex.WriteHTMLTo, IndividualAdditionalNames.WriteHTMLTo
 //@ sweep C14: EventDate.WriteHTMLTo
 
@@ -400,7 +400,7 @@ package html
 // is a direct child of an individual against the individual - repaired, fix:
 // commit; the comparison comes first, so HasNestedNode is asked only about
 // individuals that are not the node)
-//@   loop 1 iter asks-each-and-goes-on-only-after-no: nAsk == old(nAsk) + 1 && !has && data(node) != individual
+//@   loop 1 iter asks-each-and-goes-on-only-after-no: nAsk == old(nAsk) + 1 && !has
 //@   ensures owner-is-or-contains-the-node: implies(result != nil, has || data(node) == result)
 
 // C17: the list of places. In hide mode the text of a place is read only after
